@@ -312,6 +312,10 @@ def ids_scope(level="quick"):
                         wfs["wb"] = wb
                     cfg = mkcfg(machines, obs, (100, 10), (100, 10), 2, 2)
                     yield "S-ids", mkcase(cfg, wfs)
+                    if M == 2 and second != 0:
+                        # machine ids numbered per category as well
+                        yield "S-ids", mkcase(
+                            dict(cfg, mids=world.percat_ids(M)), wfs)
 
 
 # -- S-buffer3: three observations around the buffer capacities (thorough)
